@@ -88,14 +88,15 @@ Print Assumptions rec_check_exact.
    returned exactly for the others.  (That g is left-recursive iff the user's
    grammar is, is NOT proved: it is tested by the oracle on the user's grammar.) *)
 Theorem build_exact : forall ug terminals smart start g sfxs,
+  existsb has_dunder terminals || has_dunder start = false ->      (* the constructor's own name assertions pass *)
   factorize ug terminals smart = Ok (g, sfxs) ->
   part1_ok g (terminals ++ [END_TOKEN]) start ->
   (build ug terminals smart start = Err GrammarRec <-> left_recursive (grules g)) /\
   ((exists p, build ug terminals smart start = Ok p) <-> ~ left_recursive (grules g)).
 Proof.
-  intros ug terminals smart start g sfxs Hf P1.
+  intros ug terminals smart start g sfxs Hd Hf P1.
   destruct (rec_check_exact g (terminals ++ [END_TOKEN]) start P1) as [E1 E2].
-  unfold build. rewrite Hf. cbn [bind]. cbn [t_nulls make_tables].
+  unfold build. rewrite Hd, Hf. cbn [bind]. cbn [t_nulls make_tables].
   destruct (rec_check g (terminals ++ [END_TOKEN]) (nullables g)) as [[]|e] eqn:E; cbn [bind].
   - split; split; intro H.
     + discriminate.
@@ -169,7 +170,8 @@ Theorem accepted_parse_terminates : forall ug terminals smart start p,
   forall toks, exists k, p_parse p k toks <> Err Hang.
 Proof.
   intros ug terminals smart start p Hb P1 toks.
-  unfold build in Hb. destruct (factorize ug terminals smart) as [[g sfxs]|e] eqn:Hf; cbn [bind] in Hb; [|discriminate].
+  unfold build in Hb. destruct (existsb has_dunder terminals || has_dunder start); [discriminate|].
+  destruct (factorize ug terminals smart) as [[g sfxs]|e] eqn:Hf; cbn [bind] in Hb; [|discriminate].
   cbn [t_nulls make_tables] in Hb.
   destruct (rec_check g (terminals ++ [END_TOKEN]) (nullables g)) as [[]|e] eqn:E; cbn [bind] in Hb; [|discriminate].
   inversion Hb; subst p. clear Hb. cbn [p_grammar p_terminals] in P1.
@@ -193,8 +195,8 @@ Definition xy : list sym := [[120%Z]; [121%Z]].
 
 (* the current model raises GrammarIsRecursive for it under both namings *)
 Example witness_rejected_both_namings :
-  ctor_outcome (witness [65%Z]) xy false = Err GrammarRec /\
-  ctor_outcome (witness [90%Z]) xy false = Err GrammarRec.
+  ctor_outcome (witness [65%Z]) xy false [69%Z] = Err GrammarRec /\
+  ctor_outcome (witness [90%Z]) xy false [69%Z] = Err GrammarRec.
 Proof. vm_compute. split; reflexivity. Qed.
 Print Assumptions witness_rejected_both_namings.
 
